@@ -347,6 +347,27 @@ def u_reweighted_estimator(h, pen_name):
     h.observe('x', last[0])
 
 
+def u_exact_on_orthogonal_design(h, weights, p0):
+    """WeightedLasso's solver configuration (AndersonCD, weighted L1 with zero = unpenalised weights) on a design with
+    orthogonal columns of equal norm: one coordinate-descent epoch over a working set that contains the unpenalised features
+    plus p0 others covers both features and solves the problem EXACTLY -- the returned point has zero violation"""
+    from checks import driver as DR
+    cfg = dict(solver='AndersonCD', datafit='Quadratic', penalty='WeightedL1', X='orth22', max_iter=1, max_epochs=1, p0=p0,
+               fit_intercept=False, ws_strategy='subdiff', warm=False, weights_concrete=weights)
+    R = DR.run_driver(h, cfg)
+    w = [R.w[k] for k in range(len(R.w))]
+    for k in range(len(w)):
+        h.observe('w%d' % k, w[k])
+    stopped = h.le(R.stop_crit, R.tol)
+    if (h.mode == 'sym' and bool(stopped)) or (h.mode != 'sym' and stopped.strict):
+        h.ensure('one-epoch-is-exact', True)       # the start already met the tolerance: no epoch was run
+        return
+    ok = h.true()
+    for t in DR.violation_terms(h, R, w):
+        ok = h.and_(ok, h.false() if DR._isinf(t) else h.eq(t, 0))
+    h.ensure('one-epoch-is-exact', ok)
+
+
 def u_glm_estimator(h):
     """GeneralizedLinearEstimator hands exactly the user's components to the solver; Lasso == GLE(Quadratic, L1, AndersonCD)"""
     import skglm
@@ -452,6 +473,9 @@ def units(tier):
             us.append(Unit('C11/K/Cox-datafit[tm=%s,s=%s,efron=%s]' % (tm, sv, efron), c06.u_cox,
                            dict(tm=tm, s=sv, efron=efron, sparse_pattern=[[1, 0], [0, 1], [1, 1]][:len(tm)]), wall_s=60))
     us.append(Unit('C11/E/GeneralizedLinearEstimator', u_glm_estimator, {}, wall_s=90))
+    for weights, p0 in (([1.0, 0.0], 1), ([0.0, 1.0], 1), ([1.0, 2.0], 2)):
+        us.append(Unit('C11/D/exact-on-orthogonal-design[weights=%s,p0=%d]' % (weights, p0), u_exact_on_orthogonal_design,
+                       dict(weights=weights, p0=p0), wall_s=90, timeout_ms=8000))
     for pn in ('L0_5', 'L2_3', 'LogSumPenalty'):
         us.append(Unit('C11/K/reweighting-weights[%s]' % pn, u_reweight_weights, dict(pen_name=pn), wall_s=60, timeout_ms=8000))
     for pn in ('L0_5', 'LogSumPenalty'):
